@@ -211,7 +211,7 @@ def k4(ctx, kr):
 def k5(ctx, kr):
     from . import C05 as K05
     K05._CTX = ctx
-    NMAX = 3 if ctx.tier == 'quick' else 5
+    NMAX = 4 if ctx.tier == 'quick' else 5
     kr.bounds = 'every valid UTF-8 document of 1..%d bytes: token (line, col) = line/column of the span start (what LspProject::tokenize copies into the semantic token)' % NMAX
     jobs = []
     for N in range(1, NMAX + 1):
